@@ -223,4 +223,19 @@ PROPS = {
         "trusted_base": [KERNEL, CORR, "lean/Model/Path.lean (hand-written from row.go; tied by correspondence incl. the row after ImportAtPath)"],
         "assumptions": ["keys containing '.' are not addressable by a dotted path (excluded)"],
     },
+    "C20": {
+        "kind": "c20",
+        "race": True,
+        "module": "Props.C20",
+        "namespace": "Jl.C20",
+        "rule": ("12 rounds (thorough: 40): a template with numeric(int), binary([]byte), a declared sub-row, datetime, hidden and a random "
+                 "subset of the 9 formats with random raw types is shared by 2-16 goroutines, each running 60 (thorough: 300) operations "
+                 "drawn from CreateRowEmpty, CreateRow from map / slice / JSON text / Row, import + set on a created row, and a "
+                 "per-goroutine importer/exporter stream, with runtime.Gosched() interleaved; the binary is built with -race; per-goroutine "
+                 "outputs are compared with the same programs run sequentially. distinct = rounds (distinct templates and goroutine "
+                 "counts); every round is non-trivial (>= 2 goroutines, >= 7 kinds of operations)"),
+        "trusted_base": [KERNEL, EXTRACT, "the Go race detector and scheduler (exploration, not proof)",
+                         "atomicity of single operations in Model.Conc is a modelling assumption"],
+        "assumptions": ["the Go memory model, compiler reorderings and runtime are outside the model: data races as such are judged by the race detector only"],
+    },
 }
